@@ -710,6 +710,15 @@ func dspGenCase(r *Rand, o dspGenOpt, small bool) *dspCase {
 	if o.ends {
 		c.endmode = r.Intn(3)
 		c.closeAt = r.Intn(nl + 1)
+		if o.track && !small {
+			// everything in a tracking session depends on our JOIN and on the members: the end
+			// (and the discards around it) must come late enough (see dspGenTrackLines)
+			c.endmode = 1 + r.Intn(2)
+			nl = r.Range(300, 400)
+			c.closeAt = r.Range(280, nl)
+		} else if o.track {
+			c.endmode = 0
+		}
 	}
 	c.cfg, c.cbg, c.dfg, c.dbg = r.Intn(3), r.Intn(2), r.Intn(3), r.Intn(2)
 	if o.panics {
